@@ -191,4 +191,14 @@ def discharge(obligations, axioms, timeout_ms=10000, procs=None, seed=0, use_cvc
             outs = pool.map(_work, [j for _, j in jobs], chunksize=1)
         for (i, job), r in zip(jobs, outs):
             results[i] = r
+        # an `unknown` can be an unlucky seed or a loaded machine: one retry with the default seed and three times the budget
+        again = [(i, job) for (i, job) in jobs if results[i]['status'] == 'unknown']
+        if again and len(again) <= 24:
+            jobs2 = [(i, (j[0], j[1], j[2] * 3, j[3], 0 if j[4] else 7, j[5])) for i, j in again]
+            with mp.get_context('fork').Pool(min(procs, len(jobs2))) as pool:
+                outs2 = pool.map(_work, [j for _, j in jobs2], chunksize=1)
+            for (i, _), r in zip(jobs2, outs2):
+                if r['status'] != 'unknown':
+                    r['retried'] = True
+                    results[i] = r
     return [results[i] for i in range(len(obligations))]
